@@ -38,7 +38,7 @@ struct Format : Profile {
     std::vector<std::string> required_probes() const override
     {
         return {"image-at-close", "image-at-sync", "linked-element", "linked-multi-table", "external-element", "compressed-element", "chunked-element",
-                "datainfo-linked", "datainfo-short-array", "vdata-record-checked", "vgroup-record-checked", "alias", "dd-blocks>1", "sd-datainfo", "gr-datainfo", "sd-values-checked", "gr-values-checked", "sd-attr-datainfo",
+                "datainfo-linked", "datainfo-short-array", "vdata-record-checked", "vgroup-record-checked", "alias", "dd-blocks>1", "sd-datainfo", "gr-datainfo", "sd-values-checked", "gr-values-checked", "sd-attr-datainfo", "sd-ann-datainfo", "sd-ann-datainfo-short-array",
                 "an-datainfo"};
     }
 
@@ -69,6 +69,11 @@ struct Format : Profile {
                     p.ops.push_back(mkop(0, "hdup", {(int64_t)r.below(3), (int64_t)r.below(8), (int64_t)r.below(8)}));
                 else if (r.chance(0.05))
                     p.ops.push_back(mkop(0, "hdel", {(int64_t)r.below(2), (int64_t)r.below(3), (int64_t)r.below(8)}));
+                else if (r.chance(0.06)) {
+                    int64_t ds = (int64_t)r.below(5);
+                    for (int q = (int)r.range(1, 3); q > 0; q--) // several annotations on one dataset: more than a short array holds
+                        p.ops.push_back(mkop(0, "sdann", {ds, (int64_t)r.below(2), (int64_t)r.below(1000)}));
+                }
                 else if (fam == 0 && r.chance(0.5)) // appends in one call that cross several blocks and tables
                     p.ops.push_back(mkop(0, "happend", {(int64_t)r.below(2), (int64_t)r.below(3), (int64_t)r.below(8), 1 + r.sizeish(r.chance(0.3) ? 400 : 90), (int64_t)(r.next() >> 16)}));
                 else
@@ -432,6 +437,45 @@ struct Format : Profile {
                             same_values(ctx, rd, x, nt, lib, nval, strf("dataset %s", nm));
                             ctx.probe("sd-values-checked");
                         }
+                    }
+                }
+                // annotations of the dataset: SDgetanndatainfo against the DIL/DIA elements on disk that name its NDG
+                {
+                    int32 ndgref = SDidtoref(id);
+                    for (int kind = 0; kind < 2 && ndgref > 0; kind++) {
+                        std::vector<spec::Extent> want;
+                        for (auto &y : rd.dds)
+                            if (y.base() == (kind ? spec::T_DIA : spec::T_DIL) && rd.has_data(y) && y.len >= 4 && rd.u16(y.off) == spec::T_NDG && rd.u16(y.off + 2) == (uint16_t)ndgref)
+                                want.push_back({(int64_t)y.off + 4, (int64_t)y.len - 4});
+                        ann_type at = kind ? AN_DATA_DESC : AN_DATA_LABEL;
+                        int      n0 = SDgetanndatainfo(id, at, 0, NULL, NULL);
+                        ctx.st.checks++;
+                        if (n0 != (int)want.size())
+                            ctx.fail("datainfo-mismatch", "datainfo-mismatch:count:SDgetanndatainfo",
+                                     strf("SDgetanndatainfo(dataset %s, %s) counts %d annotation(s); the file holds %zu that name its NDG %d", nm, kind ? "descriptions" : "labels", n0, want.size(), (int)ndgref));
+                        size_t sizes[3] = {1, want.size(), want.size() + 2};
+                        for (size_t si = 0; si < 3 && !want.empty(); si++) {
+                            size_t             cnt = sizes[si];
+                            std::vector<int32> off(cnt + 4, 0x5A5A5A5A), len(cnt + 4, 0x5A5A5A5A);
+                            int                n = SDgetanndatainfo(id, at, (unsigned)cnt, off.data(), len.data());
+                            for (size_t j = cnt; j < cnt + 4; j++)
+                                if (off[j] != 0x5A5A5A5A || len[j] != 0x5A5A5A5A)
+                                    ctx.fail("datainfo-overrun", "datainfo-overrun:SDgetanndatainfo", strf("SDgetanndatainfo with room for %zu of %zu annotation(s) wrote behind the caller's arrays", cnt, want.size()));
+                            if (n != (int)std::min(cnt, want.size()))
+                                ctx.fail("datainfo-mismatch", "datainfo-mismatch:returned:SDgetanndatainfo", strf("SDgetanndatainfo with room for %zu of %zu annotation(s) returned %d", cnt, want.size(), n));
+                            for (int j = 0; j < n; j++) {
+                                bool found = false;
+                                for (auto &w : want)
+                                    found |= w.off == off[(size_t)j] && w.len == len[(size_t)j];
+                                if (!found)
+                                    ctx.fail("datainfo-mismatch", "datainfo-mismatch:location:SDgetanndatainfo",
+                                             strf("SDgetanndatainfo(dataset %s) reports an annotation text at offset %d length %d; no annotation of the dataset lies there", nm, (int)off[(size_t)j], (int)len[(size_t)j]));
+                            }
+                            if (cnt < want.size())
+                                ctx.probe("sd-ann-datainfo-short-array");
+                        }
+                        if (!want.empty())
+                            ctx.probe("sd-ann-datainfo");
                     }
                 }
                 for (int32 a = 0; a < nat; a++) {
